@@ -71,10 +71,10 @@ CHECKS = {
  ),
  "C10": dict(
   category="exploration",
-  text="Random operation histories are applied in lock-step to a sequential map model and to the in-memory, file-system and SQL repositories (the SQL one through database/sql over an in-memory driver written for this purpose); every return value and error-ness is compared, and every Append is followed at once by a read of the same asset (visibility). Values cover all finite float64 incl. extremes; dates as the property restricts them.",
-  design_ref="DESIGN.md §3 C10",
-  note="Trusted: harness/internal/fakesql as the 'conforming driver' (rows in insertion order, statements take effect before returning); for a name appended only with empty batches either an empty result or an error is accepted (SQL cannot tell it from an unknown name).",
-  technique="lock-step model-based runtime monitoring of operation histories over three implementations",
+  text="Random operation histories are applied in lock-step to a sequential map model and to the in-memory, file-system and SQL repositories (the SQL one through database/sql over an in-memory driver written for this purpose); every return value and error-ness is compared, and every Append is followed at once by a read of the same asset (visibility). Values cover all finite float64 incl. extremes; dates as the property restricts them. Concurrent histories (one writer per asset, 3-8 readers, plain and -race builds) are recorded with an atomic logical clock at the client boundary and every read is checked against the window of states its call/return interval admits (single-writer append-only linearizability, decided exactly because every appended snapshot is unique); the race detector watches the same runs.",
+  design_ref="DESIGN.md §3 C10, §7.4",
+  note="Trusted: harness/internal/fakesql as the 'conforming driver' (rows in insertion order, statements take effect before returning); for a name appended only with empty batches either an empty result or an error is accepted (SQL cannot tell it from an unknown name); concurrent readers of the file-system/SQL repositories are not overlapped with the writer of the SAME asset (their streams are lazy; the property speaks of sequences of calls), the in-memory repository is.",
+  technique="lock-step model-based runtime monitoring of operation histories over three implementations + recorded concurrent histories checked for linearizability (unique-value prefix windows) + Go race detector",
  ),
  "C11": dict(
   category="exploration",
